@@ -279,16 +279,16 @@ func checkC11(c *Ctx) {
 	}
 	// mixed keys (levels, colliding messages, derived cores), seeded random histories
 	mixed := smpParams{N: 1, M: 2, Tick: 2}
-	c.MustTLC(TLCOpts{Module: "Sampler", Cfg: "Sampler.seq", Gen: true, Workers: 1, Simulate: fmt.Sprintf("num=%d", c.Pick(1500, 20000)), Depth: 80, Seed: c.Seed,
+	c.MustTLC(TLCOpts{Module: "Sampler", Cfg: "Sampler.seq", Gen: true, Workers: 1, Simulate: fmt.Sprintf("num=%d", c.Pick(1500, 12000)), Depth: 80, Seed: c.Seed, Timeout: 40 * time.Minute,
 		Consts: smpConsts(mixed, map[string]string{"Emit": "TRUE", "E": "7", "Levels": `{"on", "on2", "off", "oor"}`, "Msgs": `{"a", "a2", "b"}`, "Cores": `{"root", "child"}`}), OnBeh: seqCb(mixed)})
 	// the application moves the wrapped core's level while the history runs
 	for _, im := range []string{"on", "none", "off"} {
 		tg := smpParams{N: 1, M: 2, Tick: 2, InitMin: im}
-		c.MustTLC(TLCOpts{Module: "Sampler", Cfg: "Sampler.seq", Gen: true, Workers: 1, Simulate: fmt.Sprintf("num=%d", c.Pick(700, 8000)), Depth: 80, Seed: c.Seed + 7,
+		c.MustTLC(TLCOpts{Module: "Sampler", Cfg: "Sampler.seq", Gen: true, Workers: 1, Simulate: fmt.Sprintf("num=%d", c.Pick(700, 5000)), Depth: 80, Seed: c.Seed + 7, Timeout: 40 * time.Minute,
 			Consts: smpConsts(tg, map[string]string{"Emit": "TRUE", "E": "6", "Levels": `{"on", "on2", "off", "oor"}`, "Msgs": `{"a", "b"}`, "Times": "{0, 1, 2}", "InitMin": `"` + im + `"`, "MaxToggles": "3"}), OnBeh: seqCb(tg)})
 	}
 	// messages in neighbouring buckets at different levels (independent budgets)
-	c.MustTLC(TLCOpts{Module: "Sampler", Cfg: "Sampler.seq", Gen: true, Workers: 1, Simulate: fmt.Sprintf("num=%d", c.Pick(1200, 15000)), Depth: 80, Seed: c.Seed + 3,
+	c.MustTLC(TLCOpts{Module: "Sampler", Cfg: "Sampler.seq", Gen: true, Workers: 1, Simulate: fmt.Sprintf("num=%d", c.Pick(1200, 9000)), Depth: 80, Seed: c.Seed + 3, Timeout: 40 * time.Minute,
 		Consts: smpConsts(mixed, map[string]string{"Emit": "TRUE", "E": "7", "Levels": `{"on", "on2"}`, "Msgs": `{"a", "c", "d"}`, "Times": "{0, 1}"}), OnBeh: seqCb(mixed)})
 	c.Set("sequential_histories_replayed", int64(nseq))
 
